@@ -25,7 +25,7 @@
      f   the set of allocator requests of this call (1st, 2nd, ..) made to fail
    Sizes beyond the allocator limit are the symbolic classes BIG, TOOLONG and
    OVERFLOW (negative numbers), see DESIGN.md 2.5.                          *)
-EXTENDS Integers, Sequences, FiniteSets, Utf8
+EXTENDS Integers, Sequences, FiniteSets, Utf8, Codec
 
 CONSTANTS NH,        \* handle slots
           MaxBufs,   \* simultaneously live heap buffers
@@ -210,7 +210,11 @@ Fin(st, op, cr, cls, val) ==
   ELSE Out(Put(st, op.h, cr.c, cr.r), ResErr(cr.c, op))
 
 \* ------------------------------------------------------------------- Do
+RECURSIVE Do(_, _)
 Do(st, op) ==
+  IF op.op = "from_utf16_lossy"
+  THEN Do(st, [op EXCEPT !.op = "collect", !.v = "chars", !.n = (Len(op.x) + 1) \div 2, !.m = 0, !.x = Dec16Items(op.x, 1, TRUE).items])
+  ELSE
   LET c0 == Ctx0(st.bufs)
       f  == op.f
       r  == st.hs[op.h]
@@ -325,6 +329,26 @@ Do(st, op) ==
          ELSE LET c2 == Release(g.c, g.r) IN      \* the accumulator is dropped while unwinding
               Out(Put(st, op.h, c2, Dead),
                   Res(c2, "panic", <<>>, IF g.out = "cb" THEN "callback" ELSE "reserve"))
+
+    [] op.op = "from_utf8_lossy" ->   \* with_capacity(len) (panicking), then push_str(valid run) / push(U+FFFD) per chunk
+         LET n  == Len(op.s)
+             c1 == IF n > MaxInline THEN Alloc(c0, f, <<>>, n) ELSE c0 IN
+         IF ~c1.ok THEN Out(st, Res(c1, "panic", <<>>, "reserve"))
+         ELSE LET r1 == IF n > MaxInline THEN HeapRep(c1.nb, 0) ELSE InlineOf(<<>>)
+                  g  == PushItems(c1, f, r1, LossyItems(op.s), 1, 0) IN
+              IF g.out = "ok" THEN Out(Put(st, op.h, g.c, g.r), Res(g.c, "ok", <<>>, ""))
+              ELSE LET c2 == Release(g.c, g.r) IN Out(Put(st, op.h, c2, Dead), Res(c2, "panic", <<>>, "reserve"))
+
+    [] op.op = "from_utf16" ->        \* with_capacity(units), push per decoded char, Err at the first unpaired surrogate
+         LET n  == Len(op.x)
+             d  == Dec16Items(op.x, 1, FALSE)
+             c1 == IF n > MaxInline THEN Alloc(c0, f, <<>>, n) ELSE c0 IN
+         IF ~c1.ok THEN Out(st, Res(c1, "panic", <<>>, "reserve"))
+         ELSE LET r1 == IF n > MaxInline THEN HeapRep(c1.nb, 0) ELSE InlineOf(<<>>)
+                  g  == PushItems(c1, f, r1, d.items, 1, 0) IN
+              IF g.out = "ok" /\ d.ok THEN Out(Put(st, op.h, g.c, g.r), Res(g.c, "ok", <<>>, ""))
+              ELSE LET c2 == Release(g.c, g.r) IN
+                   Out(Put(st, op.h, c2, Dead), IF g.out = "ok" THEN Res(c2, "err", <<>>, "utf16") ELSE Res(c2, "panic", <<>>, "reserve"))
 
     [] op.op = "display" ->    \* to_lean_string() of a user Display type: new, then one push_str per piece written
          \* n > 0: fmt() returns Err before piece n;  m > 0: fmt() panics before piece m (the error wins at the same piece)
